@@ -1005,6 +1005,12 @@ func (o *ovsdbClient) monitor(ctx context.Context, cookie MonitorCookie, reconne
 			db.modelMutex.RUnlock()
 			return fmt.Errorf("type for table %s does not exist in model", o.Table)
 		}
+		if _, twice := requests[o.Table]; twice {
+			// only one request per table can be sent: the columns of the
+			// others would silently not be monitored
+			db.modelMutex.RUnlock()
+			return fmt.Errorf("table %s is named more than once in the monitor", o.Table)
+		}
 		model, err := db.model.NewModel(o.Table)
 		if err != nil {
 			db.modelMutex.RUnlock()
